@@ -53,7 +53,7 @@ impl Check for C09 {
     fn runs(&self, tier: Tier) -> u64 {
         match tier {
             Tier::Quick => 1500,
-            Tier::Thorough => 12000,
+            Tier::Thorough => 8000,
         }
     }
     fn generate(&self, rng: &mut Prng, _tier: Tier, idx: u64) -> Value {
